@@ -27,6 +27,9 @@ type c05Step struct {
 	R  string   `json:"r,omitempty"`
 	F  []string `json:"f,omitempty"`
 	ID string   `json:"id,omitempty"` // sreq_start: "auto" (ListRoots inside a tool) | "x" (SendRequest with ONE caller-chosen id)
+	// Reconnect (op open): the stream is opened, then opened AGAIN for the same session; the older one is ended by the
+	// server and the session is left with one stream, the newer
+	Reconnect bool `json:"reconnect,omitempty"`
 }
 
 type c05Obs struct {
@@ -45,6 +48,9 @@ type c05Result struct {
 	Frames  map[string][]string `json:"frames"` // per model session: tags of the frames seen, in order
 	Broken  string              `json:"broken,omitempty"`
 	Pending int                 `json:"pending_end"`
+	// Aborted: the walk cannot go on because an earlier step did not do what the model says (e.g. a server request that
+	// reached nobody has no id to answer); the observations so far are reported
+	Aborted string `json:"aborted,omitempty"`
 }
 
 type c05Sess struct {
@@ -246,6 +252,19 @@ func c05Run(kind, id string, steps []c05Step) (res c05Result) {
 				return
 			}
 			s.streams = append(s.streams, stream)
+			if st.Reconnect {
+				second, err := peer.OpenSSE(ctx, http.MethodGet, w.url, map[string]string{"Accept": "text/event-stream", "Mcp-Session-Id": s.id}, nil)
+				if err != nil || second.Status != 200 {
+					fail("second GET failed: %v", err)
+					return
+				}
+				if !stream.WaitEOF(2 * time.Second) {
+					fail("the older stream was not ended when the session opened a newer one")
+					return
+				}
+				time.Sleep(20 * time.Millisecond) // the older handler has finished its exit path
+				s.streams[len(s.streams)-1] = second
+			}
 			o.OK = true
 		case "close":
 			s := w.sess[st.S]
@@ -418,7 +437,7 @@ func c05Run(kind, id string, steps []c05Step) (res c05Result) {
 			p := w.sess[st.S]
 			rid := w.reqid[st.R]
 			if rid == nil {
-				fail("request %s has no id", st.R)
+				res.Aborted = fmt.Sprintf("step %d answer: request %s was never seen on a stream, it has no id", i, st.R)
 				return
 			}
 			body := fmt.Sprintf(`{"jsonrpc":"2.0","id":%s,"result":{"roots":[{"uri":"file:///from-%s","name":"from-%s"}]}}`, rid, st.S, st.S)
